@@ -325,7 +325,7 @@ namespace raptor
     void append_neg_T(int _idx1, int _idx2, double* b, const double* x, const double* val) const
     {
         int first_row = _idx1*b_rows;
-        int first_col = _idx1*b_cols;
+        int first_col = _idx2*b_cols;
         for (int row = 0; row < b_rows; row++)
         {
             for (int col = 0; col < b_cols; col++)
